@@ -1,15 +1,305 @@
 //! C15 harness: histories of body-builder and body-parser operations on one thread-local body/parser.
 //!   BNEW <le|be>            new body          BRESET            body.reset()
 //!   BPUSH|BPUSHV|BPUSHN <catalogue-type> ...  typed pushes (see wirelib::run)
+//!   BPUSHM <k> <ty1> <v1> .. <tyk> <vk>       k = 1: push_param, k = 2..5: push_param<k> with a DIFFERENT type per slot
+//!                                             (types from the MIX table below)
 //!   BOLD <value>            push_old_param    BOLDS <k> <v1..vk>  push_old_params
 //!   PNEW                    parser over a snapshot of the body
+//!   PNEWX <hex>             parser over from_parts(<these bytes>, signature / descriptors / byte order of the body):
+//!                           the way to a DECODE error behind a valid signature
 //!   PGET|PGETN <catalogue-type> ...           typed gets       PGETP   get_param
-//! Every line answers "<ok|err|..> <body state | parser state>".
-use rbverif::wirelib::{body_state, parser_state, Args, BODY, PARSER};
-use rustbus::message_builder::{MarshalledMessage, MarshalledMessageBody};
+//!   PGETM <k> <ty1> .. <tyk>                  k = 1: get, k = 2..5: get<k> with a different type per slot (MIX table)
+//!   TYPES                   the type names BPUSH/PGET.. (catalogue) and BPUSHM/PGETM (MIX table) understand
+//!   PCUR                    the parser's byte and signature cursor, "cur=<buf_idx>,<sig_idx>" (read off the derived
+//!                           Debug output, the fields are private; "cur=?" when that output has another shape)
+//! Every other line answers "<ok|err|wrongsig|end|panic> [values] <body state | parser state>".
+use rbverif::wirelib::{body_state, parser_state, Args, Fd, Path, Sig, Tok, Var, BODY, F64, PARSER};
+use rustbus::message_builder::{MarshalledMessage, MarshalledMessageBody, MessageBodyParser};
+use rustbus::wire::errors::{MarshalError, UnmarshalError};
+use rustbus::wire::marshal::traits::SignatureBuffer;
+use rustbus::wire::marshal::MarshalContext;
+use rustbus::wire::unmarshal_context::UnmarshalContext;
+use rustbus::{Marshal, Signature, Unmarshal};
+use std::cell::{Cell, RefCell};
+use std::collections::HashMap;
 
 #[path = "wire_param.rs"]
 mod wire_param;
+
+// ---------------------------------------------------------------- the MIX table: concrete Rust types by name
+/// what the slot types below need to know about one concrete Rust type
+struct TypeOps {
+    name: &'static str,
+    has_sig: fn(&str) -> bool,
+    sig_str: fn(&mut SignatureBuffer),
+    alignment: fn() -> usize,
+    signature: fn() -> rustbus::signature::Type,
+    /// T::unmarshal, the value printed as tokens
+    unmarshal: for<'a, 'f, 'b> fn(&'a mut UnmarshalContext<'f, 'b>) -> Result<String, UnmarshalError>,
+    /// T::from_tok, boxed
+    from_tok: fn(&mut Args) -> Box<dyn ErasedMarshal>,
+}
+trait ErasedMarshal {
+    fn marshal_erased(&self, ctx: &mut MarshalContext) -> Result<(), MarshalError>;
+}
+impl<T: Marshal> ErasedMarshal for T {
+    fn marshal_erased(&self, ctx: &mut MarshalContext) -> Result<(), MarshalError> {
+        self.marshal(ctx)
+    }
+}
+fn un<T>(ctx: &mut UnmarshalContext<'_, '_>) -> Result<String, UnmarshalError>
+where
+    T: Tok + for<'b, 'f> Unmarshal<'b, 'f>,
+{
+    T::unmarshal(ctx).map(|x| {
+        let mut out = Vec::new();
+        x.to_tok(&mut out, true);
+        out.join(" ")
+    })
+}
+fn mk<T>(a: &mut Args) -> Box<dyn ErasedMarshal>
+where
+    T: Tok + Marshal + 'static,
+{
+    Box::new(T::from_tok(a))
+}
+fn ops<T>(name: &'static str) -> TypeOps
+where
+    T: Tok + Marshal + for<'b, 'f> Unmarshal<'b, 'f> + 'static,
+{
+    TypeOps { name, has_sig: T::has_sig, sig_str: T::sig_str, alignment: T::alignment, signature: T::signature, unmarshal: un::<T>, from_tok: mk::<T> }
+}
+fn mix_table() -> Vec<TypeOps> {
+    vec![
+        ops::<u8>("y"),
+        ops::<bool>("b"),
+        ops::<i16>("n"),
+        ops::<u16>("q"),
+        ops::<i32>("i"),
+        ops::<u32>("u"),
+        ops::<i64>("x"),
+        ops::<u64>("t"),
+        ops::<F64>("d"),
+        ops::<Fd>("h"),
+        ops::<String>("s"),
+        ops::<Path>("o"),
+        ops::<Sig>("g"),
+        ops::<Var<u8>>("v[y]"),
+        ops::<Var<u32>>("v[u]"),
+        ops::<Var<u64>>("v[t]"),
+        ops::<Var<String>>("v[s]"),
+        ops::<Var<bool>>("v[b]"),
+        ops::<Var<Vec<String>>>("v[as]"),
+        ops::<Var<(u32, String)>>("v[(us)]"),
+        ops::<Var<Var<String>>>("v[v[s]]"),
+        ops::<Vec<u8>>("ay"),
+        ops::<Vec<u32>>("au"),
+        ops::<Vec<u64>>("at"),
+        ops::<Vec<bool>>("ab"),
+        ops::<Vec<String>>("as"),
+        ops::<Vec<Path>>("ao"),
+        ops::<Vec<(u8, String)>>("a(ys)"),
+        ops::<Vec<Vec<String>>>("aas"),
+        ops::<Vec<Var<String>>>("av[s]"),
+        ops::<(u32, String)>("(us)"),
+        ops::<(u8, u64)>("(yt)"),
+        ops::<(u8, bool, String)>("(ybs)"),
+        ops::<(String, (u8, bool))>("(s(yb))"),
+        ops::<(u64, Vec<String>)>("(tas)"),
+        ops::<(u8, Var<u32>)>("(yv[u])"),
+        ops::<(u8, Var<String>)>("(yv[s])"),
+        ops::<Vec<Var<u32>>>("av[u]"),
+        ops::<HashMap<u8, Var<u32>>>("a{yv[u]}"),
+        ops::<(String, u8, String, u8)>("(sysy)"),
+        ops::<(Fd, String)>("(hs)"),
+        ops::<HashMap<u32, String>>("a{us}"),
+        ops::<HashMap<String, bool>>("a{sb}"),
+        ops::<HashMap<u8, Var<String>>>("a{yv[s]}"),
+        ops::<HashMap<String, Vec<String>>>("a{sas}"),
+    ]
+}
+thread_local! {
+    static MIX: Vec<TypeOps> = mix_table();
+    /// the MIX indices of the slots of the multi-get / multi-push that is running
+    static SLOTS: RefCell<Vec<usize>> = RefCell::new(Vec::new());
+    /// get: the slot the next has_sig / unmarshal belongs to; push: the slot whose marshal ran last
+    static SLOT_IDX: Cell<usize> = Cell::new(0);
+    /// tokens of the values decoded by the slots so far
+    static SLOT_OUT: RefCell<Vec<String>> = RefCell::new(Vec::new());
+}
+fn mix_index(name: &str) -> Option<usize> {
+    MIX.with(|m| m.iter().position(|t| t.name == name))
+}
+fn with_cur<R>(f: impl FnOnce(&TypeOps) -> R) -> R {
+    let i = SLOTS.with(|s| {
+        let s = s.borrow();
+        s[SLOT_IDX.with(|c| c.get()).min(s.len() - 1)]
+    });
+    MIX.with(|m| f(&m[i]))
+}
+
+/// One slot of get / get2..5: the i-th Slot of a call behaves as the i-th type named on the PGETM line (the crate calls
+/// T::has_sig and then T::unmarshal for one slot after the other; unmarshal moves on to the next slot).
+struct Slot;
+impl Signature for Slot {
+    fn signature() -> rustbus::signature::Type {
+        with_cur(|t| (t.signature)())
+    }
+    fn alignment() -> usize {
+        with_cur(|t| (t.alignment)())
+    }
+    fn sig_str(s: &mut SignatureBuffer) {
+        with_cur(|t| (t.sig_str)(s))
+    }
+    fn has_sig(s: &str) -> bool {
+        with_cur(|t| (t.has_sig)(s))
+    }
+}
+impl<'buf, 'fds> Unmarshal<'buf, 'fds> for Slot {
+    fn unmarshal(ctx: &mut UnmarshalContext<'fds, 'buf>) -> Result<Self, UnmarshalError> {
+        let f = with_cur(|t| t.unmarshal);
+        let toks = f(ctx)?;
+        SLOT_OUT.with(|o| o.borrow_mut().push(toks));
+        SLOT_IDX.with(|c| c.set(c.get() + 1));
+        Ok(Slot)
+    }
+}
+/// One slot of push_param / push_param2..5: marshal notes which slot ran, the static sig_str that follows it asks.
+struct SlotM {
+    idx: usize,
+    v: Box<dyn ErasedMarshal>,
+}
+impl Signature for SlotM {
+    fn signature() -> rustbus::signature::Type {
+        with_cur(|t| (t.signature)())
+    }
+    fn alignment() -> usize {
+        with_cur(|t| (t.alignment)())
+    }
+    fn sig_str(s: &mut SignatureBuffer) {
+        with_cur(|t| (t.sig_str)(s))
+    }
+    fn has_sig(s: &str) -> bool {
+        with_cur(|t| (t.has_sig)(s))
+    }
+}
+impl Marshal for SlotM {
+    fn marshal(&self, ctx: &mut MarshalContext) -> Result<(), MarshalError> {
+        SLOT_IDX.with(|c| c.set(self.idx));
+        self.v.marshal_erased(ctx)
+    }
+}
+
+fn fail_word(e: &UnmarshalError) -> &'static str {
+    match e {
+        UnmarshalError::WrongSignature => "wrongsig",
+        UnmarshalError::EndOfMessage => "end",
+        _ => "err",
+    }
+}
+
+/// get / get2..5 over explicit, different types. A few combinations are instantiated directly (no Slot in between), so the
+/// slot mechanism itself is cross-checked by the same comparison with the model.
+fn get_mixed(p: &mut MessageBodyParser<'static>, names: &[&str]) -> Result<String, UnmarshalError> {
+    fn t<X: Tok>(x: &X) -> String {
+        let mut out = Vec::new();
+        x.to_tok(&mut out, true);
+        out.join(" ")
+    }
+    match names {
+        ["u", "s"] => return p.get2::<u32, String>().map(|(a, b)| [t(&a), t(&b)].join(" ")),
+        ["s", "v[u]"] => return p.get2::<String, Var<u32>>().map(|(a, b)| [t(&a), t(&b)].join(" ")),
+        ["y", "s", "t"] => return p.get3::<u8, String, u64>().map(|(a, b, c)| [t(&a), t(&b), t(&c)].join(" ")),
+        ["as", "b", "(us)"] => return p.get3::<Vec<String>, bool, (u32, String)>().map(|(a, b, c)| [t(&a), t(&b), t(&c)].join(" ")),
+        ["s", "b", "u", "as"] => return p.get4::<String, bool, u32, Vec<String>>().map(|(a, b, c, d)| [t(&a), t(&b), t(&c), t(&d)].join(" ")),
+        ["y", "u", "s", "t", "b"] => {
+            return p.get5::<u8, u32, String, u64, bool>().map(|(a, b, c, d, e)| [t(&a), t(&b), t(&c), t(&d), t(&e)].join(" "))
+        }
+        _ => {}
+    }
+    let idx: Vec<usize> = names.iter().map(|n| mix_index(n).expect("checked by the caller")).collect();
+    SLOTS.with(|s| *s.borrow_mut() = idx);
+    SLOT_IDX.with(|c| c.set(0));
+    SLOT_OUT.with(|o| o.borrow_mut().clear());
+    let r = match names.len() {
+        1 => p.get::<Slot>().map(|_| ()),
+        2 => p.get2::<Slot, Slot>().map(|_| ()),
+        3 => p.get3::<Slot, Slot, Slot>().map(|_| ()),
+        4 => p.get4::<Slot, Slot, Slot, Slot>().map(|_| ()),
+        5 => p.get5::<Slot, Slot, Slot, Slot, Slot>().map(|_| ()),
+        n => panic!("PGETM: {} slots", n),
+    };
+    r.map(|_| SLOT_OUT.with(|o| o.borrow().join(" ")))
+}
+
+fn push_mixed(body: &mut MarshalledMessageBody, slots: Vec<SlotM>, idx: Vec<usize>) -> Result<(), MarshalError> {
+    SLOTS.with(|s| *s.borrow_mut() = idx);
+    SLOT_IDX.with(|c| c.set(0));
+    let s = &slots;
+    match s.len() {
+        1 => body.push_param(&s[0]),
+        2 => body.push_param2(&s[0], &s[1]),
+        3 => body.push_param3(&s[0], &s[1], &s[2]),
+        4 => body.push_param4(&s[0], &s[1], &s[2], &s[3]),
+        5 => body.push_param5(&s[0], &s[1], &s[2], &s[3], &s[4]),
+        n => panic!("BPUSHM: {} slots", n),
+    }
+}
+
+/// buf_idx and sig_idx of the parser, from the head of its derived Debug output
+fn cursor_of(p: &MessageBodyParser) -> String {
+    use std::fmt::Write;
+    struct Head(String);
+    impl Write for Head {
+        fn write_str(&mut self, s: &str) -> std::fmt::Result {
+            self.0.push_str(s);
+            if self.0.len() > 120 {
+                Err(std::fmt::Error)
+            } else {
+                Ok(())
+            }
+        }
+    }
+    let mut h = Head(String::new());
+    let _ = write!(h, "{:?}", p);
+    fn field(s: &str, name: &str) -> Option<u64> {
+        let at = s.find(name)? + name.len();
+        let digits: String = s[at..].chars().take_while(|c| c.is_ascii_digit()).collect();
+        digits.parse().ok()
+    }
+    match (h.0.starts_with("MessageBodyParser {"), field(&h.0, "buf_idx: "), field(&h.0, "sig_idx: ")) {
+        (true, Some(b), Some(s)) => format!("cur={},{}", b, s),
+        _ => "cur=?".to_string(),
+    }
+}
+
+thread_local! {
+    /// the body copy the current parser borrows (freed when the next parser or body replaces it, so that the
+    /// descriptors it holds do not pile up over a long run)
+    static SNAPSHOT: Cell<*mut MarshalledMessageBody> = Cell::new(std::ptr::null_mut());
+}
+fn drop_parser() {
+    // the parser is the only borrower of the snapshot: it goes first
+    PARSER.with(|p| *p.borrow_mut() = None);
+    let old = SNAPSHOT.with(|s| s.replace(std::ptr::null_mut()));
+    if !old.is_null() {
+        drop(unsafe { Box::from_raw(old) });
+    }
+}
+fn snapshot_parser(bytes: Option<Vec<u8>>) {
+    drop_parser();
+    // a parser borrows the body, so it gets its own copy
+    let copy = BODY.with(|b| {
+        let b = b.borrow();
+        let fds = b.body.get_fds().to_vec();
+        let buf = bytes.unwrap_or_else(|| b.get_buf().to_vec());
+        MarshalledMessageBody::from_parts(buf, 0, fds, b.get_sig().to_owned(), b.body.byteorder())
+    });
+    let raw = Box::into_raw(Box::new(copy));
+    SNAPSHOT.with(|s| s.set(raw));
+    let snapshot: &'static MarshalledMessageBody = unsafe { &*raw };
+    PARSER.with(|p| *p.borrow_mut() = Some(snapshot.parser()));
+}
 
 fn eval(line: &str) -> String {
     let mut a = Args::new(line);
@@ -22,7 +312,7 @@ fn eval(line: &str) -> String {
                 m.body = MarshalledMessageBody::with_byteorder(bo);
                 *b.borrow_mut() = m;
             });
-            PARSER.with(|p| *p.borrow_mut() = None);
+            drop_parser();
             format!("ok {}", body_state())
         }
         "BRESET" => {
@@ -32,6 +322,23 @@ fn eval(line: &str) -> String {
         "BPUSH" | "BPUSHV" | "BPUSHN" | "PGET" | "PGETN" => {
             let ty = a.next();
             rbverif::catalogue::dispatch(ty, op, &mut a)
+        }
+        "BPUSHM" => {
+            let k = a.num() as usize;
+            let mut slots = Vec::new();
+            let mut idx = Vec::new();
+            for i in 0..k {
+                let name = a.next();
+                let ti = match mix_index(name) {
+                    Some(ti) if (1..=5).contains(&k) => ti,
+                    _ => return "NOTYPE".to_string(),
+                };
+                let f = MIX.with(|m| m[ti].from_tok);
+                slots.push(SlotM { idx: i, v: f(&mut a) });
+                idx.push(ti);
+            }
+            let r = BODY.with(|b| push_mixed(&mut b.borrow_mut().body, slots, idx));
+            format!("{} {}", if r.is_ok() { "ok" } else { "err" }, body_state())
         }
         "BOLD" => {
             let p = wire_param::param_from(&mut a);
@@ -44,16 +351,35 @@ fn eval(line: &str) -> String {
             let r = BODY.with(|b| b.borrow_mut().body.push_old_params(&ps));
             format!("{} {}", if r.is_ok() { "ok" } else { "err" }, body_state())
         }
+        // the type names this binary can dispatch (the check uses only these, so a catalogue that is being regenerated
+        // next to it costs coverage, never a verdict)
+        "TYPES" => format!("catalogue={} mix={}", rbverif::catalogue::CATALOGUE.join(","), MIX.with(|m| m.iter().map(|t| t.name).collect::<Vec<_>>().join(","))),
         "PNEW" => {
-            // snapshot: a parser borrows the body, so it gets its own leaked copy
-            let snapshot: &'static MarshalledMessageBody = BODY.with(|b| {
-                let b = b.borrow();
-                let fds = b.body.get_fds().to_vec();
-                let copy = MarshalledMessageBody::from_parts(b.get_buf().to_vec(), 0, fds, b.get_sig().to_owned(), b.body.byteorder());
-                Box::leak(Box::new(copy)) as &'static MarshalledMessageBody
-            });
-            PARSER.with(|p| *p.borrow_mut() = Some(snapshot.parser()));
+            snapshot_parser(None);
             format!("ok {}", parser_state())
+        }
+        "PNEWX" => {
+            snapshot_parser(Some(rbverif::unhex(a.next())));
+            format!("ok {}", parser_state())
+        }
+        "PCUR" => PARSER.with(|p| match p.borrow().as_ref() {
+            Some(p) => cursor_of(p),
+            None => "noparser".to_string(),
+        }),
+        "PGETM" => {
+            let k = a.num() as usize;
+            let names: Vec<&str> = (0..k).map(|_| a.next()).collect();
+            if k < 1 || k > 5 || names.iter().any(|n| mix_index(n).is_none()) {
+                return "NOTYPE".to_string();
+            }
+            let res = PARSER.with(|p| {
+                let mut p = p.borrow_mut();
+                match get_mixed(p.as_mut().unwrap(), &names) {
+                    Ok(s) => format!("ok {}", s),
+                    Err(e) => fail_word(&e).to_string(),
+                }
+            });
+            format!("{} {}", res, parser_state())
         }
         "PGETP" => {
             let res = PARSER.with(|p| {
@@ -65,8 +391,7 @@ fn eval(line: &str) -> String {
                         wire_param::param_tok(&x, &mut out, true);
                         format!("ok {}", out.join(" "))
                     }
-                    Err(rustbus::wire::errors::UnmarshalError::EndOfMessage) => "end".to_string(),
-                    Err(_) => "err".to_string(),
+                    Err(e) => fail_word(&e).to_string(),
                 };
                 r
             });
@@ -77,5 +402,22 @@ fn eval(line: &str) -> String {
 }
 
 fn main() {
-    rbverif::line_loop(|line| eval(line));
+    // descriptors: values with UnixFd leaves dup(2); give the run the whole hard limit (best effort)
+    if let Ok((_, hard)) = nix::sys::resource::getrlimit(nix::sys::resource::Resource::RLIMIT_NOFILE) {
+        let _ = nix::sys::resource::setrlimit(nix::sys::resource::Resource::RLIMIT_NOFILE, hard, hard);
+    }
+    rbverif::line_loop(|line| {
+        // a panic inside the crate is an outcome of the operation ("panic" + the state it left behind), not the end of the run
+        match std::panic::catch_unwind(|| eval(line)) {
+            Ok(s) => s,
+            Err(_) => {
+                let op = line.split(' ').next().unwrap_or("");
+                if op.starts_with('B') {
+                    format!("panic {}", std::panic::catch_unwind(body_state).unwrap_or_else(|_| "state=?".into()))
+                } else {
+                    format!("panic {}", std::panic::catch_unwind(parser_state).unwrap_or_else(|_| "state=?".into()))
+                }
+            }
+        }
+    });
 }
